@@ -45,9 +45,20 @@ class TLCResult:
         """All PrintT'ed tuples <<"tag", ...>> as parsed Python values."""
         from harness.parse_tla import parse_value
         res = []
-        for line in self.out.splitlines():
-            line = line.strip()
-            if line.startswith('<<"%s"' % tag):
+        lines = self.out.splitlines()
+        k = 0
+        while k < len(lines):
+            line = lines[k].strip()
+            k += 1
+            if line.startswith('<<"%s"' % tag) or line.startswith('<< "%s"' % tag):
+                # TLC wraps values longer than its line width: join the continuation lines
+                # until the tuple is closed
+                j = 0
+                while line.count("<<") > line.count(">>") and k < len(lines) and j < 50 \
+                        and not lines[k].lstrip().startswith(('<<"', '<< "')):
+                    line += " " + lines[k].strip()
+                    k += 1
+                    j += 1
                 try:
                     res.append(parse_value(line))
                 except Exception:
@@ -175,6 +186,7 @@ def validate_events(module, events, workdir, shards=16, timeout=1800, cfg=None,
         os.remove(f)
     missing = [e["id"] for e in events if e["id"] not in verdicts]
     if missing:
-        raise MachineryError("no verdict for events %s" % missing[:5])
+        kinds = sorted({str(e.get("t", e.get("op", "?"))) for e in events if e["id"] in set(missing)})
+        raise MachineryError("no verdict for events %s (kinds %s)" % (missing[:5], kinds))
     return verdicts, {"states": states, "generated": generated,
                       "wall": time.time() - t0, "jvms": len(files)}
